@@ -11,18 +11,20 @@ Each property picks its clause from the same runs.
 """
 import hist, heapcorr, apicorr, vlib
 
-MODULES = {'C09': ['Hl7.Props.C09'], 'C10': ['Hl7.Props.C10'], 'C11': ['Hl7.Props.C11'], 'C12': ['Hl7.Props.C12', 'Hl7.Props.C10']}
+MODULES = {'C09': ['Hl7.Props.C09', 'Hl7.Props.C11P'], 'C10': ['Hl7.Props.C10', 'Hl7.Props.C11P'], 'C11': ['Hl7.Props.C11', 'Hl7.Props.C11P'], 'C12': ['Hl7.Props.C12', 'Hl7.Props.C10']}
 THEOREMS = {
     'C09': ['Hl7.Heap.C09_append_list', 'Hl7.Heap.C09_append_frame', 'Hl7.Heap.C09_remove_list', 'Hl7.Heap.C09_remove_frame',
             'Hl7.Heap.C09_insert_list', 'Hl7.Heap.C09_replace_in_place', 'Hl7.Heap.C09_replace_spec',
             'Hl7.Heap.C09_set_replaces_addressed', 'Hl7.Heap.C09_set_appends_when_absent', 'Hl7.Heap.C09_removeByName', 'Hl7.Heap.C09_removeByName_absent',
-            'Hl7.Heap.childAt_listed'],
+            'Hl7.Heap.childAt_listed', 'Hl7.Heap.appendP_not_pending'],
     'C10': ['Hl7.Heap.C10_append', 'Hl7.Heap.C10_remove', 'Hl7.Heap.C10_insert', 'Hl7.Heap.C10_replace', 'Hl7.Heap.C10_setParent',
-            'Hl7.Heap.C10_unsetParent', 'Hl7.Heap.C10_setTrav', 'Hl7.Heap.C10_promote', 'Hl7.Heap.C10_step', 'Hl7.Heap.C10_reachable',
+            'Hl7.Heap.C10_unsetParent', 'Hl7.Heap.C10_setTrav', 'Hl7.Heap.C10_promote', 'Hl7.Heap.C10_appendP', 'Hl7.Heap.C11_appendP_materialises', 'Hl7.Heap.C10_step', 'Hl7.Heap.C10_reachable',
             'Hl7.Heap.C10_one_parent', 'Hl7.Heap.Inv.unique'],
-    'C11': ['Hl7.Heap.C11_read_writes_nothing', 'Hl7.Heap.C11_promote_stop', 'Hl7.Heap.C11_promote_exact', 'Hl7.Heap.setParent_ok'],
+    'C11': ['Hl7.Heap.C11_read_writes_nothing', 'Hl7.Heap.C11_promote_stop', 'Hl7.Heap.C11_promote_exact', 'Hl7.Heap.setParent_ok',
+            'Hl7.Heap.appendP_not_pending', 'Hl7.Heap.promote_keeps_parent', 'Hl7.Heap.C11_promote_first', 'Hl7.Heap.C11_appendP_materialises'],
     'C12': ['Hl7.Heap.C12_append_atomic', 'Hl7.Heap.C12_insert_atomic', 'Hl7.Heap.C12_remove_atomic', 'Hl7.Heap.C12_replace_atomic',
-            'Hl7.Heap.C12_replace_traversal', 'Hl7.Heap.C12_setParent_atomic'],
+            'Hl7.Heap.C12_replace_traversal', 'Hl7.Heap.C12_setParent_atomic',
+            'Hl7.Heap.C12_appendP_refused', 'Hl7.Heap.C12_appendP_atomic', 'Hl7.Heap.C12_setParentP_refused'],
 }
 
 
